@@ -88,20 +88,25 @@ func constTable(p *Program, g *ssa.Global) *constTab {
 		}
 	case *types.Array:
 		// stores through &g[i]
-		for _, ref := range *g.Referrers() {
-			ia, ok := ref.(*ssa.IndexAddr)
-			if !ok || ia.Parent() != initFn {
-				continue
+		bad := false
+		allInstrs(initFn, func(in ssa.Instruction) {
+			ia, ok := in.(*ssa.IndexAddr)
+			if !ok || ia.X != ssa.Value(g) {
+				return
 			}
 			kc, ok := ia.Index.(*ssa.Const)
 			if !ok || kc.Value == nil {
-				return nil
+				bad = true
+				return
 			}
 			for _, r2 := range *ia.Referrers() {
 				if st, ok := r2.(*ssa.Store); ok && st.Addr == ssa.Value(ia) {
 					tab.entries = append(tab.entries, entryOf(kc.Value, st.Val))
 				}
 			}
+		})
+		if bad {
+			return nil
 		}
 	default:
 		return nil
